@@ -9,5 +9,5 @@ import (
 func TestMain(m *testing.M) { hk.Main(m, "C04") }
 
 func TestS2(t *testing.T) {
-	hk.RunSub(t, hk.Sub[Plan]{Name: "s2/helpers", Quick: 4000, Thorough: 40000, Gen: Gen, Run: Run, Journal: true})
+	hk.RunSub(t, hk.Sub[Plan]{Name: "s2/helpers", Quick: 10000, Thorough: 60000, Gen: Gen, Run: Run, Journal: true})
 }
